@@ -23,6 +23,8 @@ def cmp_handle(b, o):
         return "liveness of handle differs"
     if not b["live"]:
         return None
+    if bool(o.get("tr", True)) != bool(b.get("tr", True)):
+        return "tracked/untracked flavour differs"
     np_ = -(-b["bs"] // b["ps"])
     if o["len"] != np_:
         return "len() = %d, specification %d" % (o["len"], np_)
@@ -68,7 +70,10 @@ def gen(ctx):
         program = []
         index = []      # (test, flavour)
         for t in tests:
-            flavours = ["atomic", "opt", "arc"] if t["steps"][-1]["op"] in TRAIT_OPS else ["atomic"]
+            lastop = t["steps"][-1]["op"]
+            flavours = ["atomic", "opt", "arc"] if lastop in TRAIT_OPS else ["atomic"]
+            if not t["steps"][0]["a"].get("tr", True):
+                flavours = ["optnone", "unit"]          # the untracked flavours: `None` of Option<B> and `()`
             if any(s["op"] == "enlarge" for s in t["steps"]):
                 flavours = [f for f in flavours if f != "arc"] or ["atomic"]
             for fl in flavours:
@@ -106,11 +111,22 @@ def gen(ctx):
 
 
 def rand_history(rnd, nops):
-    ps = rnd.choice([1, 1, 2, 3, 7, 64, 128, 4096])
+    ps = rnd.choice([1, 1, 2, 3, 7, 64, 128, 4096, 4096, 4096])
     np_ = rnd.choice([0, 1, 2, 3, 5, 63, 64, 65, 127, 128, 129, rnd.randint(0, 140)])
     bs = max(0, np_ * ps - rnd.choice([0, 0, 1, ps - 1]))
-    fl = rnd.choice(["atomic", "atomic", "opt", "arc"])
-    prog = [{"op": "init", "a": {"bs": bs, "ps": ps, "fl": fl}}]
+    fl = rnd.choice(["atomic", "atomic", "atomic", "opt", "opt", "arc", "arc", "optnone", "unit"])
+    tracked = fl not in ("optnone", "unit")
+    if not tracked:
+        bs = 0
+    # NewBitmap::with_len(n) is new(n, host page size); Default is new(0, 4 KiB): the specification is told (bs, ps) only
+    via = "new"
+    if ps == 4096 and fl in ("atomic", "unit"):
+        via = rnd.choice(["new", "with_len", "with_len", "default"])
+        if via == "default" and tracked:
+            bs = 0
+    elif fl == "optnone":
+        via = rnd.choice(["new", "default"])
+    prog = [{"op": "init", "a": {"bs": bs, "ps": ps, "fl": fl, "tr": tracked, "via": via}}]
     live = [1]
     cur_bs = {1: bs}
 
@@ -136,6 +152,8 @@ def rand_history(rnd, nops):
     for _ in range(nops):
         h = rnd.choice(live)
         k = rnd.random()
+        if not tracked:                 # only the trait (and clone) exists on `()` / None
+            k = rnd.choice([0.54, 0.75, 0.8, 0.9, 0.9, 0.95])
         if k < 0.22:
             prog.append({"op": "set_range", "a": {"h": h, "s": addr(h), "l": length(h)}})
         elif k < 0.32:
